@@ -30,7 +30,7 @@ SUBSETS = [list(c) for r in range(1, 5) for c in itertools.combinations(NAMES + 
 SELS = WILD + SUBSETS  # 18
 EXPOSED = [list(c) for r in range(0, 4) for c in itertools.combinations(NAMES, r)]  # 8
 
-ACCESSOR = re.compile(r'^\s*::(?:\w+::)*Dzn::(Sts|Mts)<[^>]+> (Provides|Requires)(MultiClient)?(\w+)\(')
+ACCESSOR = re.compile(r'^\s*(?:::)?(?:\w+\s*::\s*)*Dzn\s*::\s*(Sts|Mts)\s*<[^>]+>\s*(Provides|Requires)(MultiClient)?(\w+)\s*\(')
 
 
 def toy_model(prov, req, injected):
